@@ -511,6 +511,25 @@ def run_formdual(inp):
         # canonical = dual:  c · gᵀ = 1
         dual = max(dual, float(np.max(np.abs(c @ g.T - np.eye(n)))) / s)
     out = {"form": form, "dual": dual, "sym": sym, "diag": diag, "ddual": 0.0, "dform": 0.0}
+    # histories (wave 6): representations *derived from the object whose words were just evaluated* (dual(), a conjugate, a
+    # copy) evaluate the same words to the dual / conjugate / same matrices — not to what the source object computed
+    gd2 = geo.dual()
+    Pm = np.eye(n) + np.triu(np.ones((n, n)), 1) * 0.5
+    gc2 = geo.conjugate(Pm)
+    gk2 = type(geo)(geo)
+    one = [np.asarray(X.rep_word(gc2, names, [k]), dtype=float) for k in range(n)]
+    der = 0.0
+    for w in inp["words"]:
+        g = np.asarray(X.rep_word(geo, names, w), dtype=float)
+        s = 1 + float(np.max(np.abs(g))) ** 2
+        d = np.asarray(X.rep_word(gd2, names, w), dtype=float)
+        der = max(der, float(np.max(np.abs(d @ g.T - np.eye(n)))) / s)
+        cw = np.eye(n)
+        for k in w:
+            cw = cw @ one[k]
+        der = max(der, float(np.max(np.abs(np.asarray(X.rep_word(gc2, names, w), dtype=float) - cw))) / (1 + float(np.max(np.abs(cw)))))
+        der = max(der, float(np.max(np.abs(np.asarray(X.rep_word(gk2, names, w), dtype=float) - g))) / s)
+    out["derived"] = der
     p, neg, z, mn = X.signature(Mx)
     if z == 0 and mn >= 0.02:
         # diagonalised variants: canonical(diagonalize=True) is the dual of geometric(diagonalize=True), which
@@ -534,6 +553,9 @@ def judge_formdual(inp, obs, lr):
                 "tags": {"what": "cosine-form"}}
     if obs["form"] > 1e-9:
         return {"expected": "g^T B g = B for the geometric representation", "observed": obs, "tags": {"what": "form"}}
+    if obs.get("derived", 0.0) > 1e-8:
+        return {"expected": "geo.dual()[w] = inverse transpose of geo[w], geo.conjugate(P)[w] = product of its own generators, copy[w] = geo[w], for words already evaluated on geo",
+                "observed": obs, "tags": {"what": "derived-after-evaluation"}}
     if obs["dual"] > 1e-9:
         return {"expected": "canonical_representation()[w] = inverse transpose of geometric_representation()[w]",
                 "observed": obs, "tags": {"what": "dual"}}
